@@ -904,6 +904,9 @@ def e2e_case(ctx, work, rng, mode):
             if rng.random() < 0.5:
                 lines += ["[ molecule ]", "L %d %d" % (nA, nA + rng.randint(1, nL)), "[ sphere ]", "RL 1 2 in 4.0 4.0 4.0 3.9"]
             kwargs["build_lines"] = lines
+            if lines.count("[ molecule ]") == 2 and rng.random() < 0.5:
+                # the same directives spread over TWO build files (-b a.bld b.bld): read one after the other
+                kwargs["build_split"] = len(lines) - 1 - lines[::-1].index("[ molecule ]")
     else:
         target = rng.choice(host_res)
         idx = rng.randrange(nA)
@@ -928,11 +931,15 @@ def e2e_exec(ctx, work, mode, system, kwargs, seed):
     if "ligands" in kwargs:
         kwargs["ligands"] = [tuple(p) for p in kwargs["ligands"]]
     build_lines = kwargs.pop("build_lines", None)
+    build_split = kwargs.pop("build_split", None)
     if build_lines is not None:
-        bld = path[:-4] + ".bld"
-        with open(bld, "w") as handle:
-            handle.write("\n".join(build_lines) + "\n")
-        kwargs["build"] = [Path(bld)]
+        parts = [build_lines] if build_split is None else [build_lines[:build_split], build_lines[build_split:]]
+        kwargs["build"] = []
+        for num, part in enumerate(parts):
+            bld = path[:-4] + "_%d.bld" % num
+            with open(bld, "w") as handle:
+                handle.write("\n".join(part) + "\n")
+            kwargs["build"].append(Path(bld))
     saved = []
 
     def patch(obj, attr, new):
@@ -1000,6 +1007,8 @@ def e2e_exec(ctx, work, mode, system, kwargs, seed):
     replay_kwargs = {k: ([list(p) for p in v] if k == "ligands" else v) for k, v in kwargs.items() if k != "build"}
     if build_lines is not None:
         replay_kwargs["build_lines"] = build_lines
+        if build_split is not None:
+            replay_kwargs["build_split"] = build_split
     replay = dict(stream="e2e-" + mode, system=system, seed=seed, kwargs=replay_kwargs)
     shape = "gen_coords-%s-fails" % mode
     if timed_out:
@@ -1072,7 +1081,8 @@ def e2e_exec(ctx, work, mode, system, kwargs, seed):
             ctx.oracle_fail("start-selects-other-node", "gen_coords -start %s: BuildSystem got start_dict %s"
                             % (kwargs["start"], captured["start_dict"]), replay)
     ctx.case(json.dumps(replay, sort_keys=True, default=str), stream="e2e-" + mode, ok=True,
-             e2e_options="+".join(sorted(k for k in ("build", "split", "ligands", "start") if k in kwargs)),
+             e2e_options="+".join(sorted(k for k in ("build", "split", "ligands", "start") if k in kwargs))
+             + ("(2 files)" if build_split is not None else ""),
              sample=dict(options={k: str(v) for k, v in kwargs.items()}, molecules=system["mols"],
                          attached=captured.get("attached")) if ctx.rng.random() < 0.15 else None)
     return pending
